@@ -478,6 +478,39 @@ func init() {
 					}
 					c.Case(0, true, "history")
 				}})
+			// framing of messages around the 2^24 boundary of the 4-byte message length (the text may hold several large items)
+			type bigF struct {
+				desc string
+				mk   func() (ast.ItemNode, *ref.Node)
+			}
+			ascN := func(n int) (ast.ItemNode, *ref.Node) { nd := bigNode(ref.A, n); return Build(nd), nd }
+			bigFs := []bigF{
+				{"A[16777201]: message length 0x00FFFFFF", func() (ast.ItemNode, *ref.Node) { return ascN(16777201) }},
+				{"A[16777202]: message length 0x01000000", func() (ast.ItemNode, *ref.Node) { return ascN(16777202) }},
+				{"A[16777215]: message length 0x0100000D", func() (ast.ItemNode, *ref.Node) { return ascN(16777215) }},
+				{"L[2] of A[16777215]: message length 0x0200001A", func() (ast.ItemNode, *ref.Node) {
+					a, ra := ascN(16777215)
+					return ast.NewListNode(a, a), ref.List(ra, ra)
+				}},
+				{"L[3] of U4[2000000]", func() (ast.ItemNode, *ref.Node) {
+					nd := bigNode(ref.U4, 2000000)
+					u := Build(nd)
+					return ast.NewListNode(u, u, u), ref.List(nd, nd, nd)
+				}},
+			}
+			sp = append(sp, h.Space{Name: "message-length-field-around-2^24", Count: uint64(len(bigFs)), ChunkHint: 1,
+				Describe: func(i uint64) interface{} { return bigFs[i].desc },
+				Run: func(c *h.Ctx, i uint64) {
+					it, n := bigFs[i].mk()
+					rm := &ref.Msg{Stream: 1, Function: 1, W: 1, Session: 0x0102, System: [4]byte{1, 2, 3, 4}, Item: n}
+					got := ast.NewHSMSDataMessage("", 1, 1, 1, "H->E", it, 0x0102, []byte{1, 2, 3, 4}).ToBytes()
+					want := ref.EncodeMsg(rm)
+					c.Ops(2)
+					if !bytes.Equal(got, want) {
+						c.Fail("frame-bytes:big-message", bigFs[i].desc, fmt.Sprintf("ToBytes() has %d bytes starting %x; want %d bytes starting %x", len(got), truncB(got, 20), len(want), truncB(want, 20)))
+					}
+					c.Case(0, true, "big-frame")
+				}})
 			// size boundaries: every format at the 1/2/3-length-byte boundaries, top-level and nested
 			type sz struct {
 				k      ref.Kind
